@@ -399,6 +399,177 @@ def product_rule(ctx):
     return dict(functions=len(lib), multiplications=seen, accounted=accounted, failures=len(fails))
 
 
+def divisor_rule(ctx):
+    """What the factor finder returns has been ESTABLISHED to divide its argument, on every path.
+
+    On the IR of find_prime_factor and find_pollard_rho_factor (no inlining): every value that
+    reaches a `ret` traces back, through phis, selects and casts, to
+      * the function's own parameter n (it divides itself),
+      * the result of gcd(.., ..) one argument of which is the parameter (rho search),
+      * a table entry p on an edge that is reachable only through the true outcome of n % p == 0
+        (trial division),
+      * the result of find_prime_factor / find_pollard_rho_factor applied to a value that itself has
+        such evidence (a divisor of a divisor; each function's own claim is the induction hypothesis).
+    `gcd` returning a common divisor of its arguments is assumed (listed).  Together with the
+    typestate rule this is the structural half of "returns a prime divisor of every n > 1"; that the
+    rho search ends, and primality itself, are not decided."""
+    import os
+    import re as _re
+    from vlib import cxx
+    wd = ctx.sub("DV")
+    src = os.path.join(wd, "dv.cc")
+    with open(src, "w") as f:
+        f.write('#include <cstdint>\n#include "au/utility/factoring.hh"\n'
+                'extern "C" std::uint64_t dv(std::uint64_t n) { return au::detail::find_prime_factor(n); }\n')
+    raw, out = os.path.join(wd, "dv.raw.ll"), os.path.join(wd, "dv.ll")
+    rc, so, se = cxx.run(["clang++", "-std=c++14", "-I" + ir.AU_INC, "-g", "-O1", "-Xclang", "-disable-llvm-passes", "-S", "-emit-llvm", "-w", src, "-o", raw])
+    if rc != 0:
+        raise AnalysisBroken("find_prime_factor wrapper does not compile: %s" % se[-300:])
+    rc, so, se = cxx.run(["opt-14", "-S", "-passes=function(sroa,simplifycfg,lowerswitch)", raw, "-o", out])
+    if rc != 0:
+        raise AnalysisBroken("opt failed on the divisor-rule unit: %s" % se[-300:])
+    mod = ir.parse_module(out, only=lambda n: "find_prime_factor" in n or "find_pollard_rho_factor" in n)
+    fails = []
+    stats = {}
+    for key in ("find_prime_factor", "find_pollard_rho_factor"):
+        fns = [v for k, v in mod.funcs.items() if key in k and getattr(v, "blocks", None)]
+        ctx.require(len(fns) == 1, "%s not found in the IR" % key)
+        fn = fns[0]
+        defs, where = {}, {}
+        for l in fn.order:
+            for i in fn.blocks[l]:
+                if i.res is not None:
+                    defs[i.res] = i
+                    where[i.res] = l
+        succ = {l: list(fn.blocks[l][-1].targets or []) for l in fn.order}
+        param = fn.params[0][1]
+
+        def name(a):
+            return a.v if getattr(a, "kind", None) == "v" else None
+
+        def strip(v):
+            """value name behind casts; two loads through one pointer are one value (nothing in these
+            functions stores)"""
+            while v is not None and v in defs and defs[v].op in ("zext", "sext", "trunc"):
+                v = name(defs[v].args[0])
+            if v is not None and v in defs and defs[v].op == "load":
+                mm = _re.search(r"%([\w.]+)", " ".join(str(a) for a in defs[v].args))
+                if mm:
+                    return "load:" + mm.group(1)
+            return v
+
+        def load_def(v):
+            if v is not None and v.startswith("load:"):
+                return next((i for i in defs.values() if i.op == "load" and _re.search(r"%" + _re.escape(v[5:]) + r"\b", " ".join(str(a) for a in i.args))), None)
+            return defs.get(v)
+
+        def is_table(v):
+            v = strip(v)
+            i = load_def(v)
+            if i is None or i.op != "load":
+                return False
+            raw_ = " ".join(str(a) for a in i.args)
+            mm = _re.search(r"%([\w.]+)", raw_)
+            pdef = defs.get(mm.group(1)) if mm else None
+            return "FirstPrimes" in raw_ or (pdef is not None and pdef.op == "call" and "FirstPrimes" in " ".join(str(a) for a in pdef.args) + (pdef.raw or ""))
+
+        # edges taken only when n % v == 0
+        guards = []
+        for l in fn.order:
+            t = fn.blocks[l][-1]
+            if t.op == "br" and len(t.targets) == 2:
+                c = defs.get(name(t.args[0]))
+                if c is not None and c.op == "icmp" and c.pred in ("eq", "ne"):
+                    ops = list(c.args)
+                    zero = [a for a in ops if getattr(a, "kind", None) == "c" and a.v == 0]
+                    rem = [defs.get(name(a)) for a in ops if name(a)]
+                    rem = [r for r in rem if r is not None and r.op == "urem"]
+                    if zero and rem and strip(name(rem[0].args[0])) == param:
+                        v = strip(name(rem[0].args[1]))
+                        guards.append((l, t.targets[0] if c.pred == "eq" else t.targets[1], v))
+
+        def reachable_without(edge, target):
+            seen, todo = set(), [fn.entry]
+            while todo:
+                b = todo.pop()
+                if b in seen:
+                    continue
+                seen.add(b)
+                for s_ in succ.get(b, []):
+                    if (b, s_) != edge:
+                        todo.append(s_)
+            return target in seen
+
+        def guarded(v, frm, to):
+            v = strip(v)
+            for (gf, gt, gv) in guards:
+                if gv == v and ((gf, gt) == (frm, to) or (frm is not None and not reachable_without((gf, gt), frm)) or not reachable_without((gf, gt), to)):
+                    return True
+            return False
+
+        busy = set()
+
+        def evidence(a, frm, to):
+            if getattr(a, "kind", None) == "u":
+                return None  # undef: the slot of a variable that is assigned before it is read
+            if getattr(a, "kind", None) != "v":
+                return "the constant %s" % getattr(a, "v", "?")
+            v = strip(a.v)
+            if v == param:
+                return None
+            i = load_def(v)
+            if i is None:
+                return "an unknown value %%%s" % v
+            if is_table(v):
+                return None if guarded(v, frm, to) else "a table entry p without n %% p == 0 on this path (%s)" % (mod.where(i.dbg) if i.dbg else "?")
+            if (v, frm, to) in busy:
+                return None
+            busy.add((v, frm, to))
+            try:
+                if i.op == "phi":
+                    for (o, pl) in i.incoming:
+                        r = evidence(o, pl, where[v])
+                        if r:
+                            return r
+                    return None
+                if i.op == "select":
+                    for arm in i.args[1:]:
+                        r = evidence(arm, frm, to)
+                        if r:
+                            return r
+                    return None
+                if i.op == "call" and i.callee:
+                    if _re.search(r"detail\d*3gcdE", i.callee) or "3gcd" in i.callee:
+                        if any(strip(name(x)) == param for x in i.args if hasattr(x, "kind")):
+                            return None
+                        return "gcd of values neither of which is n (%s)" % (mod.where(i.dbg) if i.dbg else "?")
+                    if "find_prime_factor" in i.callee or "find_pollard_rho_factor" in i.callee:
+                        return evidence(i.args[0], frm, to)
+                    return "the result of %s (%s)" % (_re.sub(r"^_ZN2au6detail\d+", "", i.callee), mod.where(i.dbg) if i.dbg else "?")
+                return "the result of `%s` (%s)" % (i.op, mod.where(i.dbg) if i.dbg else "?")
+            finally:
+                busy.discard((v, frm, to))
+
+        nret = 0
+        for l in fn.order:
+            t = fn.blocks[l][-1]
+            if t.op == "ret":
+                nret += 1
+                r = evidence(t.args[0], None, l)
+                if r:
+                    fails.append("%s can return %s, which is not established to divide n" % (key, r))
+        ctx.require(not any(i.op == "store" for _, i in fn.instrs()), "%s stores to memory: two loads through one pointer are no longer one value" % key)
+        stats[key] = dict(returns=nret, divisibility_guards=len(guards))
+        ctx.require(nret >= 1, "%s: no return found" % key)
+    for k, msg in enumerate(fails):
+        ctx.violation("divisor:%d" % k, msg)
+    if not fails:
+        ctx.require(stats["find_prime_factor"]["divisibility_guards"] >= 1, "find_prime_factor: no `n % p == 0` edge found")
+    ctx.assumptions.append("au::detail::gcd returns a common divisor of its two arguments")
+    stats["failures"] = len(fails)
+    return stats
+
+
 def typestate_rule(ctx):
     """find_prime_factor returns a value that has been ESTABLISHED prime on every path.
 
@@ -580,6 +751,8 @@ def body(ctx):
     ts = typestate_rule(ctx)
     pr = product_rule(ctx)
     ctx.log("product rule: %s" % pr)
+    dv = divisor_rule(ctx)
+    ctx.log("divisor rule: %s" % dv)
     ctx.log("typestate: %s" % ts)
 
     # ---- W: adversarial numbers
@@ -725,9 +898,9 @@ def body(ctx):
     ctx.log("W: %d items (%d primes, %d composites), %d mismatching" % (len(items), len(primes), len(composites), nbad))
     ctx.coverage.update(dict(
         evaluations=len(items) * len(configs) + nob, distinct_nontrivial=len(items) + nob,
-        rule="proof part: every path of add_mod / sub_mod / half_mod_odd under the documented preconditions (add_mod under the weaker a <= n), obligations = no unsigned wrap of a contributing operation, result in [0, n), result congruent to the exact value; mul_mod by induction over its recursion (no wrap, no division by zero, recursive precondition with a strictly smaller first operand, result in [0, n), result - a*b a polynomial multiple of n), with products and quotients by non-constants as terms constrained by axioms of non-negative integer arithmetic; pow_mod under n >= 2 with an inferred inductive loop invariant (every mul_mod call meets its precondition, result in [0, n)); exploration part: one witness program per prime / composite N (decltype(mag<N>()) against a factorisation computed with Python integers), products mag<a>*mag<b> == mag<a*b>, Prime<N> refused for every tabulated pseudoprime / Carmichael number; no function value is asserted directly",
+        rule="divisor rule: every value find_prime_factor / find_pollard_rho_factor can return traces to n itself, to gcd(n, .), to a table entry on an edge taken only when n % p == 0, or to the factor finder applied to such a value; proof part: every path of add_mod / sub_mod / half_mod_odd under the documented preconditions (add_mod under the weaker a <= n), obligations = no unsigned wrap of a contributing operation, result in [0, n), result congruent to the exact value; mul_mod by induction over its recursion (no wrap, no division by zero, recursive precondition with a strictly smaller first operand, result in [0, n), result - a*b a polynomial multiple of n), with products and quotients by non-constants as terms constrained by axioms of non-negative integer arithmetic; pow_mod under n >= 2 with an inferred inductive loop invariant (every mul_mod call meets its precondition, result in [0, n)); exploration part: one witness program per prime / composite N (decltype(mag<N>()) against a factorisation computed with Python integers), products mag<a>*mag<b> == mag<a*b>, Prime<N> refused for every tabulated pseudoprime / Carmichael number; no function value is asserted directly",
         samples=[dict(key=items[0].key, code=items[0].code), dict(key=items[len(primes)].key, code=items[len(primes)].code)],
-        exhaustive=False, typestate=ts, product_rule=pr, relational_obligations=nob, relational_discharged=ndis, relational_paths=npaths,
+        exhaustive=False, typestate=ts, product_rule=pr, divisor_rule=dv, relational_obligations=nob, relational_discharged=ndis, relational_paths=npaths,
         primes=len(primes), composites=len(composites), w_items=len(items), w_mismatches=nbad, witnesses_over_budget=len(budget),
         configs=[c.name for c in configs], engine_stats=stats,
         not_decided="is_prime / find_prime_factor for every 64-bit input and the VALUE of pow_mod (base^exp): sampled on adversarial and seeded inputs only"))
